@@ -276,6 +276,12 @@ def build_harness(release=False, timeout=3000):
     # the lock file of the repository pins the dependency versions available offline
     if not (hdir / 'Cargo.lock').exists() and (REPO / 'Cargo.lock').exists():
         shutil.copy(REPO / 'Cargo.lock', hdir / 'Cargo.lock')
+    # the dependency path follows VERIF_REPO (default /repo); Cargo.toml is rewritten only when it differs
+    ct = hdir / 'Cargo.toml'
+    txt = ct.read_text()
+    new = re.sub(r'image-webp = \{ path = "[^"]*" \}', 'image-webp = { path = "%s" }' % REPO, txt)
+    if new != txt:
+        ct.write_text(new)
     cmd = ['cargo', 'build', '--offline'] + (['--release'] if release else [])
     rc, out = sh(cmd, cwd=hdir, env=env, timeout=timeout)
     return rc == 0, out
